@@ -491,8 +491,19 @@ func (w *World) callerObligations(prop string) []*Obligation {
 		if len(bad) > 0 {
 			sort.Strings(bad)
 			o.Static = "called from functions outside the allowed set: " + strings.Join(bad, ", ")
-		} else if !found {
+		} else if !found && len(cd.Allowed) > 0 {
 			o.Static = "no call of " + cd.Fn + " found (contract no longer binds)"
+		} else if !found {
+			// "nobody may call it": the function itself must still exist for the directive to mean something
+			exists := false
+			for _, f := range w.scopeFunctions() {
+				if shortFnName(f) == cd.Fn {
+					exists = true
+				}
+			}
+			if !exists {
+				o.Static = "function " + cd.Fn + " not found (contract no longer binds)"
+			}
 		}
 		out = append(out, o)
 	}
